@@ -184,7 +184,7 @@ func judgeEvents(r *Run, w *World, e *Engine) {
 					r.Check(polled || restorePolled, "C15.false-success", "init-runtime-done of initialisation #%d (generation %d) says success at step %d but the runtime had not polled", nInit, gen, rtDone.Step)
 					r.Check(rtDone.ErrorType == "", "C15.false-success", "init-runtime-done success carries error type %q", rtDone.ErrorType)
 				} else {
-					ok := rtDone.ErrorType == "Runtime.Unknown"
+					ok := false
 					first := ""
 					for _, f := range faults {
 						if f.gen == gen && f.step <= rtDone.Step {
